@@ -175,3 +175,112 @@ def known_key(case, kind):
     if case.ncalls > 1 and not case.barrier and tname in WILDCARD_UNFENCED:
         return "back-to-back:" + tname
     return None
+
+
+# ---------------------------------------------------------------------------------------------------------
+# T2 tie for the record merge: the STATIC sc_notify_merge of the working tree (harness includes sc_notify.c)
+# against the extracted int-level model coq/C01/MergeModel.notify_merge, plus an independent oracle.
+# ---------------------------------------------------------------------------------------------------------
+def _hx(v):
+    return ("-%x" % -v) if v < 0 else ("%x" % v)
+
+
+def gen_merge_case(rng, npays):
+    """two well-formed record arrays over the same destinations with disjoint sender sets (the precondition the
+    callers guarantee); the first one additionally carries records marked as sent (torank -1).  Returns
+    (line, npay, map_a, map_b, dup) with map_x: torank -> {fromrank: payload tuple}."""
+    npay = rng.choice(npays)
+    style = rng.randrange(8)
+    nt = rng.choice([0, 1, 2, 3, 5, 8]) if style else 0
+    toranks = sorted(rng.sample(range(0, 14), min(nt, 14)))
+    dup = rng.random() < 0.06
+    A, B = {}, {}
+    for t in toranks:
+        ns = rng.choice([1, 1, 2, 3, 6])
+        senders = sorted(rng.sample(range(0, 12), ns))
+        where = rng.choice(["a", "b", "ab", "ab", "ab"])
+        for s in senders:
+            pay = tuple(rng.choice([0, 1, -1, 7, 0x7fffffff, -0x80000000, rng.randrange(-99, 99)]) for _ in range(npay))
+            side = where if where != "ab" else rng.choice(["a", "b"])
+            (A if side == "a" else B).setdefault(t, {})[s] = pay
+            if dup and rng.random() < 0.3:
+                pay2 = tuple(rng.randrange(-9, 9) for _ in range(npay))
+                (B if side == "a" else A).setdefault(t, {})[s] = pay2
+    def enc(M, marks):
+        out = []
+        ts = sorted(M)
+        for k, t in enumerate(ts + [None]):
+            if marks and rng.random() < 0.35:
+                # a record the binary recursion has sent away: torank overwritten by -1, rest left in place
+                cnt = rng.choice([1, 1, 2, 3])
+                out += [-1, cnt]
+                for _ in range(cnt):
+                    out += [rng.randrange(0, 12)] + [rng.randrange(-5, 5) for _ in range(npay)]
+            if t is None:
+                break
+            out += [t, len(M[t])]
+            for s in sorted(M[t]):
+                out += [s] + list(M[t][s])
+        return out
+    a, b = enc(A, True), enc(B, False)
+    line = "merge %s | %s | %s" % (_hx(npay), " ".join(_hx(v) for v in a), " ".join(_hx(v) for v in b))
+    return line, npay, A, B, dup
+
+
+def merge_oracle(npay, A, B, out):
+    """independent restatement: the output is the ascending record list of the union of the two maps, every
+    payload still behind its sender"""
+    exp = []
+    for t in sorted(set(A) | set(B)):
+        m = dict(A.get(t, {}))
+        m.update(B.get(t, {}))
+        exp += [t, len(m)]
+        for s in sorted(m):
+            exp += [s] + list(m[s])
+    return exp == out, exp
+
+
+def merge_tie(ctx, npays, ncases):
+    """returns number of cases run"""
+    rng = ctx.rng
+    v = ctx.variant(mpi="sim", san=True, cflags_extra=("-fno-sanitize=nonnull-attribute,alignment",))
+    exe = os.path.join(ctx.scratch, "c01m_harness")
+    if not os.path.exists(exe):
+        ctx.cc([os.path.join(vlib.TOOLS, "harness", "c01m_harness.c"), os.path.join(vlib.TOOLS, "simmpi", "simmpi.c")], exe, v)
+    cases = [gen_merge_case(rng, npays) for _ in range(ncases)]
+    text = "\n".join(c[0] for c in cases) + "\n"
+    env = dict(os.environ, ASAN_OPTIONS="detect_leaks=0")
+    rc, ilines, err = ctx.run_lines([exe], text, timeout=600, env=env)
+    ilines = [l for l in ilines if l != ""]
+    if rc != 0 or len(ilines) != len(cases):
+        ctx.violation("merge-harness-crash", "sc_notify_merge harness ended with status %s after %d of %d cases: %s" % (rc, len(ilines), len(cases), err[-600:]),
+                      dict(stderr=err[-3000:], next_case=cases[min(len(ilines), len(cases) - 1)][0]))
+    try:
+        mexe = ctx.model("c01")
+        rc2, mlines, err2 = ctx.run_lines([mexe], text, timeout=600)
+        mlines = [l for l in mlines if l != ""]
+        if rc2 != 0 or len(mlines) != len(cases):
+            ctx.tie_broken("c01 model run (merge)", "exit %s, %d of %d lines: %s" % (rc2, len(mlines), len(cases), err2[-500:]))
+    except vlib.BuildError as e:
+        ctx.tie_broken("c01 model build", str(e)[-1500:])
+        mlines = []
+    ndis = 0
+    for i, c in enumerate(cases):
+        line, npay, A, B, dup = c
+        ctx.count_case(line, nontrivial=bool(A) and bool(B))
+        if i >= len(ilines):
+            break
+        out = [] if ilines[i].strip() == "-" else [int(x, 16) for x in ilines[i].split()]
+        if not dup:
+            ok, exp = merge_oracle(npay, A, B, out)
+            if not ok:
+                ctx.violation("merge:npay%d" % npay, "sc_notify_merge: output is not the ascending record list of the union of its operands (a notification or its payload is lost, duplicated or misplaced): %s" % line,
+                              dict(case=line, got=out, expected=exp))
+        if i < len(mlines) and mlines[i].strip() != ilines[i].strip():
+            ndis += 1
+            if ndis <= 3:
+                ctx.tie_broken("sc_notify_merge vs model, case %d" % i, "case %s | impl %s | model %s" % (line, ilines[i][:300], mlines[i][:300]))
+    ctx.cov["disagreements_checked"] += len(cases)
+    ctx.notes["merge_cases"] = len(cases)
+    ctx.notes["merge_model_disagreements"] = ndis
+    return len(cases)
